@@ -215,6 +215,119 @@ Definition add_trailers : list header -> md -> md := add_with trailer_key.
 Definition convert_to_proto_header (m : md) : list header := m.
 
 (* ====================================================================== *)
+(* 2b. The same conversions with memory made explicit                      *)
+(* ====================================================================== *)
+(* Above, a header's values and a map entry are VALUES.  In Go they are slices: windows of
+   arrays that others may hold too, and into whose spare capacity append() writes.  Here the
+   arrays are explicit: `cells h id i` is cell i of array id; every array has spare capacity
+   without end, so that append() is ALWAYS in place - the worst case for sharing, and what the
+   Go harness arranges (source slices are made with spare capacity).  A conversion that gives
+   its result arrays of its own implements the value semantics; one that stores the slice it
+   was handed does not (`share = true`: seeded change C18-14, refuted in C18_Props). *)
+Record heap := Heap { cells : nat -> nat -> bytes; next : nat }.
+Inductive sl := SNil | SRef (id len : nat).                      (* a []string *)
+Definition hmap := list (bytes * sl).                            (* map[string][]string, []*Header *)
+
+Definition upd (c : nat -> nat -> bytes) (id i : nat) (x : bytes) : nat -> nat -> bytes :=
+  fun id' i' => if Nat.eqb id' id && Nat.eqb i' i then x else c id' i'.
+Definition sl_val (h : heap) (s : sl) : list bytes :=
+  match s with SNil => [] | SRef id n => map (cells h id) (seq 0 n) end.
+(* append(s, x): a nil slice gets a new array, any other is extended in place *)
+Definition sl_append (h : heap) (s : sl) (x : bytes) : heap * sl :=
+  match s with
+  | SNil => (Heap (upd (cells h) (next h) 0 x) (S (next h)), SRef (next h) 1)
+  | SRef id n => (Heap (upd (cells h) id n x) (next h), SRef id (S n))
+  end.
+Definition image (h : heap) (m : hmap) : list header := map (fun ks => (fst ks, sl_val h (snd ks))) m.
+
+(* m[k] = append(m[k], x) *)
+Fixpoint hm_add (k x : bytes) (h : heap) (m : hmap) : heap * hmap :=
+  match m with
+  | [] => let (h', s) := sl_append h SNil x in (h', [(k, s)])
+  | (k', s) :: m' =>
+    if bytes_eqb k k' then let (h', s') := sl_append h s x in (h', (k', s') :: m')
+    else let (h', m'') := hm_add k x h m' in (h', (k', s) :: m'')
+  end.
+(* m[k] = append(m[k]) with nothing to append: the key exists afterwards *)
+Fixpoint hm_touch (k : bytes) (m : hmap) : hmap :=
+  match m with
+  | [] => [(k, SNil)]
+  | (k', s) :: m' => if bytes_eqb k k' then m else (k', s) :: hm_touch k m'
+  end.
+Definition hm_has (k : bytes) (m : hmap) : bool := existsb (fun ks => bytes_eqb k (fst ks)) m.
+
+Section HeapConv.
+  Variable share : bool.                     (* the variant: keep the source's slice for a new key *)
+  Variable touch : bool.                     (* the key is created even for an empty value list *)
+  Variable keyf : bytes -> bytes.
+  Variable valf : bytes -> bytes -> bytes.   (* key, value -> stored value *)
+
+  Definition conv_one (st : heap * hmap) (hd : bytes * sl) : heap * hmap :=
+    let k := keyf (fst hd) in
+    let vs := sl_val (fst st) (snd hd) in
+    if share && negb (is_nil vs) && negb (hm_has k (snd st)) then (fst st, snd st ++ [(k, snd hd)])
+    else fold_left (fun st v => hm_add k (valf k v) (fst st) (snd st)) vs
+                   (fst st, if touch then hm_touch k (snd st) else snd st).
+  Definition conv_h (src : hmap) (st : heap * hmap) : heap * hmap := fold_left conv_one src st.
+
+  (* the value-level conversion all five functions are instances of *)
+  Definition conv_v (src : list header) (dest : md) : md :=
+    fold_left (fun m h => let k := keyf (fst h) in
+                 fold_left (fun m v => md_append k [valf k v] m) (snd h)
+                           (if touch then md_append k [] m else m)) src dest.
+End HeapConv.
+
+Definition val_id (_ v : bytes) : bytes := v.
+(* which conversion: 0 AddHeaders, 1 AddTrailers, 2 ConvertToProtoHeader,
+   3 ConvertProtoHeaderToMetadata, 4 ConvertMetadataToProtoHeader *)
+Definition fn_touch (fn : Z) : bool := negb ((fn =? 0)%Z || (fn =? 1)%Z).
+Definition fn_key (fn : Z) : bytes -> bytes :=
+  if (fn =? 0)%Z then canonical_key else if (fn =? 1)%Z then trailer_key
+  else if (fn =? 3)%Z then lower else (fun k => k).
+Definition fn_val (b64enc : bytes -> bytes) (b64dec : bytes -> option bytes) (fn : Z) : bytes -> bytes -> bytes :=
+  if (fn =? 3)%Z then (fun k v => if is_bin k then decode_or_raw b64dec v else v)
+  else if (fn =? 4)%Z then (fun k v => if is_bin k then b64enc v else v)
+  else val_id.
+
+(* a history in which the converted structures are used further.  The source list is in memory
+   (arrays with spare capacity); destination A is filled from it, then a sibling destination B;
+   x1 is appended to every value list of A, x2 to every value list of B; then every array of
+   the source is scribbled over (which includes appending to the source's slices).  Observed: A
+   right after the conversion, A and B at the end. *)
+Definition heap0 : heap := Heap (fun _ _ => []) 0.
+Definition alloc_list (h : heap) (vs : list bytes) : heap * sl :=
+  (Heap (fun id i => if Nat.eqb id (next h) then nth i vs [] else cells h id i) (S (next h)),
+   SRef (next h) (length vs)).
+Fixpoint alloc_src (h : heap) (hs : list header) : heap * hmap :=
+  match hs with
+  | [] => (h, [])
+  | (n, vs) :: r => let (h1, s) := alloc_list h vs in let (h2, m) := alloc_src h1 r in (h2, (n, s) :: m)
+  end.
+Fixpoint append_all (x : bytes) (h : heap) (m : hmap) : heap * hmap :=
+  match m with
+  | [] => (h, [])
+  | (k, s) :: m' =>
+    let (h1, s') := sl_append h s x in let (h2, m'') := append_all x h1 m' in (h2, (k, s') :: m'')
+  end.
+Definition scribble_mark : bytes := bs "#".
+Definition scribble (h : heap) (ks : bytes * sl) : heap :=
+  match snd ks with
+  | SNil => h
+  | SRef id _ => Heap (fun id' i => if Nat.eqb id' id then scribble_mark else cells h id' i) (next h)
+  end.
+
+Definition alias_history (conv : hmap -> heap * hmap -> heap * hmap) (hs : list header) (x1 x2 : bytes)
+  : list header * list header * list header :=
+  let (h0, src) := alloc_src heap0 hs in
+  let (h1, A) := conv src (h0, []) in
+  let img0 := image h1 A in
+  let (h2, B) := conv src (h1, []) in
+  let (h3, A') := append_all x1 h2 A in
+  let (h4, B') := append_all x2 h3 B in
+  let h5 := fold_left scribble src h4 in
+  (img0, image h5 A', image h5 B').
+
+(* ====================================================================== *)
 (* 3. Percent-encoding of grpc-message                                     *)
 (* ====================================================================== *)
 (* ShouldEscapeByteInMessage: char < ' ' || char > '~' || char == '%' *)
@@ -294,6 +407,49 @@ Section Codecs.
     | Some m => if is_nil (top_unknown m) then COk m else CErrUnknown
     end.
 End Codecs.
+
+(* A message OBJECT with a history.  Marshal is a function of the value the object holds now.
+   protobuf-go keeps hidden state in the object (the size of every nested message as computed
+   by the last Size/Marshal); `cached = true` is the variant that trusts it
+   (MarshalOptions{UseCachedSize: true}, seeded change C18-11): after a change in a nested
+   message the sizes are stale and the encoder reports a size mismatch. *)
+Inductive sizing := NotSized | Sized | Stale.
+Record mobj := MObj { o_cur : pmsg; o_sizing : sizing }.
+Inductive hop := HSet (m : pmsg) | HSize | HMarshal.
+
+Section CodecHist.
+  Variable wire : Type.
+  Variable marshal : pmsg -> wire.
+  Variable unmarshal : wire -> codec_result.
+  Variable cached : bool.
+
+  Definition obj_marshal (o : mobj) : option wire :=
+    if cached then match o_sizing o with Stale => None | _ => Some (marshal (o_cur o)) end
+    else Some (marshal (o_cur o)).
+  Definition after_sizing (o : mobj) : mobj :=
+    MObj (o_cur o) (if cached then match o_sizing o with Stale => Stale | _ => Sized end else Sized).
+  (* the results of the Marshal calls of the history: None = Marshal failed, else what
+     Unmarshal makes of the output *)
+  Fixpoint run_hist (ops : list hop) (o : mobj) : list (option codec_result) :=
+    match ops with
+    | [] => []
+    | HSet m :: r => run_hist r (MObj m (match o_sizing o with NotSized => NotSized | _ => Stale end))
+    | HSize :: r => run_hist r (after_sizing o)
+    | HMarshal :: r =>
+      match obj_marshal o with
+      | Some w => Some (unmarshal w) :: run_hist r (after_sizing o)
+      | None => None :: run_hist r o
+      end
+    end.
+End CodecHist.
+(* the value the object holds at each Marshal of the history *)
+Fixpoint values_at_marshal (ops : list hop) (cur : pmsg) : list pmsg :=
+  match ops with
+  | [] => []
+  | HSet m :: r => values_at_marshal r m
+  | HSize :: r => values_at_marshal r cur
+  | HMarshal :: r => cur :: values_at_marshal r cur
+  end.
 
 (* ====================================================================== *)
 (* 5. Instances used by the extracted model                                *)
@@ -538,6 +694,45 @@ Definition run_c18_codec_unknown (args : list sx) : sx :=
     else ret (sx_codec_result (strict_json_unmarshal _ unmarshal_json_i (1, m)))
   | _ => None end).
 
+(* c18.alias_http (fn 0,1,2) / c18.alias_md (fn 3,4): fn headers x1 x2 -> (A after the conversion,
+   A at the end, B at the end).  For the two functions that read a Go map the list is made a map
+   first (unique keys, last assignment wins). *)
+Definition conv_i (fn : Z) : hmap -> heap * hmap -> heap * hmap :=
+  conv_h false (fn_touch fn) (fn_key fn) (fn_val b64enc_i b64dec_i fn).
+Definition alias_source (fn : Z) (hs : list header) : list header :=
+  if (fn =? 2)%Z || (fn =? 4)%Z then fold_left (fun m h => md_assign (fst h) (snd h) m) hs [] else hs.
+Definition run_c18_alias (args : list sx) : sx :=
+  or_bad (match args with
+  | [I fn; hs; B x1; B x2] => do hs <- un_listof un_header hs;
+    if ((fn <? 0) || (4 <? fn))%Z then None else
+    let '(a0, a1, b1) := alias_history (conv_i fn) (alias_source fn hs) x1 x2 in
+    ret (L [sx_headers a0; sx_headers a1; sx_headers b1])
+  | _ => None end).
+
+(* c18.codec_hist: codec family ((k msg)...) -> the result of every Marshal of the history.
+   Step k = 0: the object is changed to hold msg, Marshal; 1: changed, Size, Marshal;
+   2: changed, Size only.  family (which Go message type carries the tree) is the harness's. *)
+Definition un_hstep (s : sx) : option (list hop) :=
+  match s with
+  | L [I k; m] => do m <- un_pmsg m;
+    let m := strip m in
+    if (k =? 0)%Z then ret [HSet m; HMarshal]
+    else if (k =? 1)%Z then ret [HSet m; HSize; HMarshal]
+    else if (k =? 2)%Z then ret [HSet m; HSize] else None
+  | _ => None
+  end.
+Definition sx_hist_result (r : option codec_result) : sx :=
+  match r with Some c => sx_codec_result c | None => B (bs "marshal-err") end.
+Definition run_c18_codec_hist (args : list sx) : sx :=
+  or_bad (match args with
+  | [I c; I _; steps] => do steps <- un_listof un_hstep steps;
+    let ops := concat steps in
+    let o := MObj (PMsg [] [] []) NotSized in
+    ret (sx_list sx_hist_result
+      (if (c =? 0)%Z then run_hist _ (strict_proto_marshal _ marshal_bin_i) (strict_proto_unmarshal _ unmarshal_bin_i) false ops o
+       else run_hist _ (strict_json_marshal _ marshal_json_i) (strict_json_unmarshal _ unmarshal_json_i) false ops o))
+  | _ => None end).
+
 Definition c18_table : list (bytes * (list sx -> sx)) :=
   [ (bs "c18.err_connect", run_c18_err_connect);
     (bs "c18.err_go", run_c18_err_go);
@@ -551,4 +746,7 @@ Definition c18_table : list (bytes * (list sx -> sx)) :=
     (bs "c18.unpercent", run_c18_unpercent);
     (bs "c18.b64", run_c18_b64);
     (bs "c18.codec_rt", run_c18_codec_rt);
-    (bs "c18.codec_unknown", run_c18_codec_unknown) ].
+    (bs "c18.codec_unknown", run_c18_codec_unknown);
+    (bs "c18.codec_hist", run_c18_codec_hist);
+    (bs "c18.alias_http", run_c18_alias);
+    (bs "c18.alias_md", run_c18_alias) ].
